@@ -1,12 +1,85 @@
 /-
 C10 — no client-supplied bytes can crash the server.
+
+The modelled layer is everything between the bytes a client writes and the start of a reader
+or an aggregator: server `Write` (split at ';'), handleCommand, handleProtocolVersion,
+handleBase64, DeserializeOptions, handleUserCommand, readCommand.Start, regex.Deserialize,
+newMapCommand / NewAggregate / NewQuery with the whole query front end (C11's model), and the
+allocation of the before-context ring.  Every Go indexing and slicing operation of that code
+is explicit in the model (`goIndex`, `goSlice`, `goSliceFrom` panic exactly where the Go
+runtime would).
 -/
-import DtailModel.Lemmas.Command
+import DtailModel.Lemmas.NoPanic
+import DtailModel.Model.Base64
 namespace Dtail.C10
 open Dtail
 
-/-- The one recorded finding: the before-context ring is allocated with the client's number. -/
-theorem C10_full_false : ∃ ltx : LCtx, (readerStart ltx).isPanic = true :=
-  ⟨⟨4611686018427387904, 0, 0⟩, by decide⟩
+/-- **Decoding and dispatching a command never panics** — for every byte string and every
+    behaviour of the external decoders (base64, regexp.Compile, strconv.ParseFloat): all
+    argument-count guards cover the indexing they protect. -/
+theorem C10_handle_never_panics (env : Env) (cmd : Bytes) : (handleCommand env cmd).isPanic = false :=
+  handleCommand_noPanic env cmd
+
+/-- the same for every command of every byte stream a client can write (server `Write` cuts the
+    stream at ';') -/
+theorem C10_stream_never_panics (env : Env) (stream : Bytes) (c : Bytes) (_ : c ∈ serverCommands stream) :
+    (handleCommand env c).isPanic = false := handleCommand_noPanic env c
+
+/-- the query front end alone (what `NewAggregate` hands to `NewQuery`) -/
+theorem C10_query_never_panics (fl : FloatOracle) (q : Bytes) : (newQuery fl q).isPanic = false :=
+  newQuery_noPanic fl q
+
+/-- what a command does to the process up to the start of its reader: decode, dispatch, and
+    for a read command allocate the before-context ring -/
+def handleAndStart (env : Env) (cmd : Bytes) : Outcome Unit :=
+  match handleCommand env cmd with
+  | .ok ⟨.read _ ltx _ _, _⟩ => readerStart ltx
+  | .ok _ => .ok ()
+  | .err e => .err e
+  | .panic p => .panic p
+
+/-- the recorded finding's signature: a read command whose before-context exceeds what
+    `make(chan, n)` accepts -/
+def sigHugeBefore (env : Env) (cmd : Bytes) : Bool :=
+  match handleCommand env cmd with
+  | .ok ⟨.read _ ltx _ _, _⟩ => decide (ltx.before > makechanLimit)
+  | _ => false
+
+/-- the full property for the modelled layer -/
+def C10_full : Prop := ∀ (env : Env) (cmd : Bytes), (handleAndStart env cmd).isPanic = false
+
+/-- **Outside the recorded finding nothing a client sends panics the server**, and inside it
+    the panic is exactly the `makechan` one: the modelled layer panics iff the command is a
+    read command with a huge `before` option. -/
+theorem C10_partial (env : Env) (cmd : Bytes) : (handleAndStart env cmd).isPanic = sigHugeBefore env cmd := by
+  unfold handleAndStart sigHugeBefore
+  have h := handleCommand_noPanic env cmd
+  cases hr : handleCommand env cmd with
+  | panic p => rw [hr] at h; exact absurd h (by simp [Outcome.NoPanic, Outcome.isPanic])
+  | err e => rfl
+  | ok hd =>
+    obtain ⟨a, o⟩ := hd
+    cases a with
+    | read m ltx g re =>
+      simp only [readerStart]
+      by_cases hb : ltx.before > makechanLimit <;> simp [hb, Outcome.isPanic]
+    | errorMessage w => rfl
+    | map q p => rfl
+    | ack c => rfl
+
+/-- The one recorded finding: the before-context ring is allocated with the client's number.
+    (`cat:before=4611686018427387904 /f regex:noop `, base64-encoded, with the real base64
+    decoder.) -/
+theorem C10_full_false : ¬ C10_full := by
+  intro h
+  have := h ⟨b64decode, fun _ => true, fun _ => none, b!"default"⟩
+    (b!"protocol 4.1 base64 Y2F0OmJlZm9yZT00NjExNjg2MDE4NDI3Mzg3OTA0IC9mIHJlZ2V4Om5vb3Ag")
+  revert this
+  decide
+
+/-- non-vacuity of `C10_partial` on the non-panicking side: an ordinary grep command is
+    decoded, dispatched and started -/
+example : handleAndStart ⟨b64decode, fun _ => true, fun _ => none, b!"default"⟩
+    (b!"protocol 4.1 base64 Z3JlcDpiZWZvcmU9MiAvZiByZWdleDpkZWZhdWx0IGE=") = .ok () := by decide
 
 end Dtail.C10
